@@ -1,22 +1,38 @@
 #!/usr/bin/env python3
 """translate_identify.py -- FAIL-CLOSED translator of cai_causal_graph/identify_utils.py to Gallina.
 
-usage:  translate_identify.py <repo_root> <output.v>
+usage:  translate_identify.py <repo_root> [<output_dir>=/verif/coq/theories]
 
 Reads (with `ast` only -- repository code is never imported or executed)
 
     <repo_root>/cai_causal_graph/identify_utils.py
 
-and writes <output.v> (normally /verif/coq/theories/IdentifyGen.v): one Gallina function `gen_<name>` per Python
-function of TARGETS (and per function nested in one of them), following the Python text statement by statement.
-Everything the generated code calls is defined in coq/theories/PyRt.v; the table at the top of that file says which
-Python construct is mapped to which Coq term and is the trusted part of this tool.  The equivalence of the generated
-functions with the hand-written model (coq/theories/Identify.v) is PROVED in coq/theories/IdentifyGenProofs.v, so a
-change of the Python source changes the generated definitions and the proof either still goes through or breaks.
+and writes THREE files into <output_dir>, one per property, so that a change in one Python function cannot disturb
+the proof obligations of an unrelated property:
 
-FAIL CLOSED: the tool handles exactly the Python subset that the target functions use.  On anything else it prints
-`translate_identify: FAIL: <file>:<line>: <reason>` on stderr and exits with status 2 WITHOUT writing the output
-(an output file left by an earlier run is removed, so that a stale translation cannot be compiled by mistake).
+    IdentifyGenConf.v  gen__verify_identify_inputs, the helper nested in identify_confounders,
+                       gen_identify_confounders                                                  (property C18)
+    IdentifyGenIM.v    gen_identify_instruments, gen_identify_mediators; imports IdentifyGenConf (property C19)
+    IdentifyGenMB.v    gen_identify_markov_boundary, gen_identify_colliders; imports
+                       IdentifyGenConf only because identify_markov_boundary calls _verify_..    (property C20)
+
+Each file contains one Gallina function `gen_<name>` per Python function of its part of FILES (and per function nested
+in one of them), following the Python text statement by statement.  Everything the generated code calls is defined in
+coq/theories/PyRt.v; the table at the top of that file says which Python construct is mapped to which Coq term and is
+the trusted part of this tool.  The equivalence of the generated functions with the hand-written models
+(coq/theories/Identify.v, Markov.v) is PROVED in coq/theories/IdentifyGen{Conf,IM,MB}Proofs.v, so a change of the
+Python source changes the generated definitions and the proof of THAT property either still goes through or breaks.
+
+FAIL CLOSED, PER FILE: the tool handles exactly the Python subset that the target functions use.
+  * A module-level construct it cannot classify (unexpected import, global statement, a decorated / duplicated
+    function, a syntax error, ...) fails everything: no file is written.
+  * Otherwise every target function is translated on its own.  If a function uses an unsupported construct, the
+    file F it belongs to is not written, and neither is any file that imports F (a function that calls an
+    untranslatable function is itself untranslatable); the files that do not depend on the offending function are
+    still written.
+  * A file that is not written is also REMOVED if an earlier run left it there, so that a stale translation cannot be
+    compiled by mistake.  For every file not written a line `translate_identify: FAIL: <file>:<line>: <reason>
+    [<F>.v is not written]` goes to stderr, and the exit status is 2 (0 only when all three files are written).
 
 The translation scheme
   * Statements are translated in continuation-passing style: the translation of `s; rest` contains the translation
@@ -42,15 +58,18 @@ The translation scheme
   * Iteration order.  Wherever Python observes the order of a set (`for x in s`, `list(s)`, a comprehension over a
     set, `enumerate(s)`, `combinations(s, 2)`) the set is wrapped in `py_iter_set py_order k`, and the library calls
     whose result order is unspecified (get_children, get_parents, get_neighbors, successors, predecessors,
-    get_all_causal_paths) take `py_order k` as well; `py_order : pyorder` is a section variable of the generated file
+    get_all_causal_paths) take `py_order k` as well; `py_order : pyorder` is a parameter of every generated function
     (an arbitrary function from lists to lists) and k numbers the observation sites of each function.  The proofs hold
     for every `py_order` that returns a permutation of its argument.
   * Calls of translated functions, `set.intersection(*..)`, `s.remove(x)`, `remove_edge` and `get_all_causal_paths`
     can fail (exception / fuel): they are hoisted, in evaluation order, into `py_bind inj <call> (fun result => ...)`
     in front of the statement.  They are refused in positions that Python evaluates conditionally or repeatedly
     (right operands of and/or, branches of a conditional expression, comprehension bodies).
-  * A function that calls itself becomes a `Fixpoint` on an extra first argument `fuel`
-    (`match fuel with O => Fuel | S fuel' => body end`, recursive calls use fuel'); every function that calls a
+  * Every generated function takes the same leading parameters `{A} eqb py_None py_empty_str py_order` (whether its
+    body mentions them or not), so the way a function is called -- also from another file and from the proofs --
+    does not depend on what its body happens to use.
+  * A function that calls itself becomes a `Fixpoint` on an extra argument `fuel` (after the leading parameters;
+    `match fuel with O => Fuel | S fuel' => body end`, recursive calls use fuel'); every function that calls a
     function with fuel takes `fuel` as well and passes it on.
   * `x = A and B` / `x = A or B` where B contains such a call (e.g. `graph.edge_exists(a, b) and graph.get_edge(a, b)...`)
     is first rewritten to `if A: x = B else: x = False` / `if A: x = True else: x = B` (A and B booleans), which is
